@@ -34,10 +34,12 @@ type failure struct {
 // One block cache for all DBs of the process (every DB gets its own handle in it): creating an
 // 8 MiB cache per history dominated the profile.
 var sharedCache = pebble.NewCache(64 << 20)
+var sharedFileCache = pebble.NewFileCache(16, 4096)
 
 func openDB(cfg hx.Config, collector bool) (*hx.X, error) {
 	o := cfg.Options(vfs.NewMem())
 	o.Cache = sharedCache
+	o.FileCache = sharedFileCache
 	if collector {
 		o.BlockPropertyCollectors = []func() pebble.BlockPropertyCollector{sstable.NewTestKeysBlockPropertyCollector}
 	}
@@ -115,10 +117,16 @@ func observe(it *pebble.Iterator, ret bool) Obs {
 	}
 	s, e := it.RangeBounds()
 	o.Start, o.End = string(s), string(e)
-	for _, k := range it.RangeKeys() {
-		o.Keys += string(k.Suffix) + "=" + string(k.Value) + ","
+	rk := it.RangeKeys()
+	if len(rk) > 0 {
+		var buf [64]byte
+		b := buf[:0]
+		for _, k := range rk {
+			b = append(append(append(append(b, k.Suffix...), '='), k.Value...), ',')
+		}
+		o.Keys = string(b)
 	}
-	if !hr && (s != nil || e != nil || len(it.RangeKeys()) != 0) {
+	if !hr && (s != nil || e != nil || len(rk) != 0) {
 		o.Err = fmt.Sprintf("HasPointAndRange says no range key but RangeBounds=[%q,%q) RangeKeys=%s", s, e, o.Keys)
 	}
 	return o
@@ -223,7 +231,6 @@ func driveIter(d *pebble.DB, m *hx.Model, ic IterCfg, scr [][]IOp, st *driveStat
 		}
 	}()
 	mi := newMiter(ic, v)
-	full := m.Spans("", "")
 	var cur []IOp
 	// do performs one call on both sides; ok=false ends the current script.
 	do := func(op IOp) (want Obs, ok bool) {
@@ -242,10 +249,8 @@ func driveIter(d *pebble.DB, m *hx.Model, ic IterCfg, scr [][]IOp, st *driveStat
 			if want.Key != want.Start && !want.HasPoint {
 				st.midSeek++
 			}
-			for _, fs := range full {
-				if kcmp(fs.Start, want.Key) <= 0 && kcmp(want.Key, fs.End) < 0 && (fs.Start != want.Start || fs.End != want.End) {
-					st.clipped++
-				}
+			if want.clipped {
+				st.clipped++
 			}
 		}
 		if verbose {
@@ -291,45 +296,125 @@ func driveIter(d *pebble.DB, m *hx.Model, ic IterCfg, scr [][]IOp, st *driveStat
 	return nil
 }
 
-// runHistory executes hist on a fresh DB and on the model; after the last operation (or after
-// every operation when everyStep is set) every iterator configuration is driven.
-func runHistory(c *vlib.Ctx, cs Case, iters []IterCfg, scr [][]IOp, everyStep, verbose bool, st *driveStats) (m *hx.Model, shape string, f *failure) {
+// sess is one open DB next to its model.
+type sess struct {
+	cs   Case
+	x    *hx.X
+	m    *hx.Model
+	step int
+}
+
+func openSess(cs Case) (*sess, error) {
 	x, err := openDB(cs.Cfg, cs.Collector)
 	if err != nil {
-		return nil, "", &failure{class: "open-error", desc: err.Error()}
+		return nil, err
 	}
+	return &sess{cs: cs, x: x, m: hx.NewModel(cs.Bounds...)}, nil
+}
+
+// shape is the LSM shape without file and sequence numbers: per level the files with their
+// user-key bounds and key types.
+func (s *sess) shape() string {
+	v := s.x.D.DebugCurrentVersion()
+	var b strings.Builder
+	for l := range v.Levels {
+		n := 0
+		for t := range v.Levels[l].All() {
+			if n == 0 {
+				fmt.Fprintf(&b, "L%d:", l)
+			}
+			n++
+			fmt.Fprintf(&b, " [%s,%s", t.Smallest().UserKey, t.Largest().UserKey)
+			if t.HasPointKeys {
+				b.WriteString(" P")
+			}
+			if t.HasRangeKeys {
+				b.WriteString(" R")
+			}
+			if t.Virtual {
+				b.WriteString(" V")
+			}
+			b.WriteString("]")
+		}
+		if n > 0 {
+			b.WriteString("; ")
+		}
+	}
+	return b.String()
+}
+
+// run executes hist on the DB and on the model; after the last operation (or after every operation
+// when everyStep is set) every iterator configuration is driven.
+func (s *sess) run(c *vlib.Ctx, hist []hx.Op, iters []IterCfg, scr [][]IOp, everyStep, verbose bool, st *driveStats) (f *failure) {
 	defer func() {
 		if r := recover(); r != nil {
 			f = &failure{class: "panic", desc: fmt.Sprintf("panic: %v", r)}
-			// the DB may hold locks; leak it
-			return
-		}
-		if err := x.D.Close(); err != nil && f == nil {
-			f = &failure{class: "close-error", desc: err.Error()}
 		}
 	}()
-	m = hx.NewModel(cs.Bounds...)
-	for i, op := range cs.Hist {
-		if err := x.Apply(i, op); err != nil {
-			return m, "", &failure{class: "op-error", desc: fmt.Sprintf("step %d %s: %v", i, op, err), at: i}
+	for i, op := range hist {
+		if err := s.x.Apply(s.step, op); err != nil {
+			return &failure{class: "op-error", desc: fmt.Sprintf("step %d %s: %v", s.step, op, err), at: i}
 		}
-		m.Apply(op, fmt.Sprintf("v%d", i))
+		s.m.Apply(op, fmt.Sprintf("v%d", s.step))
+		s.step++
 		c.Trans(1)
-		if i < len(cs.Hist)-1 && !everyStep {
+		if i < len(hist)-1 && !everyStep {
 			continue
 		}
 		if verbose {
-			fmt.Printf("after step %d %s: model {%s}\n%s", i, op, m.String(), x.Shape())
+			fmt.Printf("after step %d %s: model {%s}\n  %s\n", s.step-1, op, s.m.String(), s.shape())
 		}
 		for _, ic := range iters {
 			if verbose {
 				fmt.Printf("  iterator {%s}\n", ic)
 			}
-			if f := driveIter(x.D, m, ic, scr, st, verbose); f != nil {
-				f.desc = fmt.Sprintf("after step %d (%s): %s", i, op, f.desc)
-				return m, x.Shape(), f
+			if f := driveIter(s.x.D, s.m, ic, scr, st, verbose); f != nil {
+				f.desc = fmt.Sprintf("after step %d (%s): %s", s.step-1, op, f.desc)
+				return f
 			}
 		}
 	}
-	return m, x.Shape(), nil
+	return nil
+}
+
+// runFresh runs cs.Hist on a fresh DB. (Reusing one DB for a chain of cases separated by an excise
+// of the whole key space was tried and measured: flush+excise cost as much as pebble.Open.)
+func runFresh(c *vlib.Ctx, cs Case, iters []IterCfg, scr [][]IOp, everyStep, verbose bool, st *driveStats) (m *hx.Model, shape string, f *failure) {
+	s, err := openSess(cs)
+	if err != nil {
+		return nil, "", &failure{class: "open-error", desc: err.Error()}
+	}
+	f = s.run(c, cs.Hist, iters, scr, everyStep, verbose, st)
+	if f != nil && f.class == "panic" {
+		return s.m, "", f // the DB may hold locks; leak it
+	}
+	if f == nil {
+		shape = s.shape()
+	}
+	if err := s.x.D.Close(); err != nil && f == nil {
+		f = &failure{class: "close-error", desc: err.Error()}
+	}
+	return s.m, shape, f
+}
+
+// runCase runs one case; a disagreement is re-executed twice before it is reported (DESIGN
+// section 8 rule 4). m == nil && f == nil means "did not reproduce" (recorded as incomplete).
+func runCase(c *vlib.Ctx, cs Case, iters []IterCfg, scr [][]IOp, st *driveStats, classify func(*failure)) (m *hx.Model, shape string, f *failure) {
+	m, shape, f = runFresh(c, cs, iters, scr, false, false, st)
+	if f == nil {
+		return m, shape, nil
+	}
+	classify(f)
+	for k := 0; k < 2; k++ {
+		var st2 driveStats
+		_, _, f2 := runFresh(c, cs, iters, scr, false, false, &st2)
+		if f2 != nil {
+			classify(f2)
+		}
+		if f2 == nil || f2.class != f.class {
+			c.Incomplete("violation did not reproduce: " + f.desc)
+			return nil, "", nil
+		}
+	}
+	return nil, "", f
 }
